@@ -176,7 +176,7 @@ func reportedFor(vr *claircore.VulnerabilityReport, pkgName string) []string {
 	return out
 }
 
-func (h *harness) checkImage(eco, rel string, ir *claircore.IndexReport, st *memStore, p pkgPair, want string) {
+func (h *harness) checkImage(eco, rel string, ir *claircore.IndexReport, st *memStore, p pkgPair, want ...string) {
 	r := h.r
 	key := fmt.Sprintf("pipeline %s release=%s vuln=%s@%s fixed=%s@%s fixIn=%s", eco, rel, p.vulnBin, p.vulnVer, p.fixedBin, p.fixedVer, p.fixIn)
 	r.Case(key, true)
@@ -208,8 +208,9 @@ func (h *harness) checkImage(eco, rel string, ir *claircore.IndexReport, st *mem
 	}
 	gotV := reportedFor(vr, p.vulnBin)
 	gotF := reportedFor(vr, p.fixedBin)
-	if len(gotV) != 1 || gotV[0] != want {
-		r.Fail("", fmt.Sprintf("%s: the vulnerable package is reported %v, expected exactly [%s] (distribution in the report: %s)", key, gotV, want, distsOf(ir)))
+	sort.Strings(want)
+	if strings.Join(gotV, " ") != strings.Join(want, " ") {
+		r.Fail("", fmt.Sprintf("%s: the vulnerable package is reported %v, expected exactly %v (distribution in the report: %s)", key, gotV, want, distsOf(ir)))
 	}
 	if len(gotF) != 0 {
 		r.Fail("", fmt.Sprintf("%s: the fixed package is reported %v, expected nothing", key, gotF))
@@ -325,6 +326,30 @@ func (h *harness) pipelineRound(ctx context.Context, round int) {
 	} else {
 		st.add(vs...)
 	}
+	// definitions whose <affected> names two Oracle releases (every ordered
+	// pair, one of them chosen per round for each release): both must be reached
+	oraclePairs := map[string][]string{} // release -> advisory ids expected besides its own
+	{
+		rels := []string{"5", "6", "7", "8", "9"}
+		var defs []adv
+		for i, a := range rels {
+			for j, b := range rels {
+				if i == j || (i+j+round)%2 == 0 {
+					continue
+				}
+				id := "ADV-oracle-pair-" + a + "-" + b
+				defs = append(defs, adv{pkg: rpmP.vulnBin, fixed: rpmP.fixIn, id: id, plats: []string{"Oracle Linux " + a, "Oracle Linux " + b}})
+				oraclePairs[a] = append(oraclePairs[a], id)
+				oraclePairs[b] = append(oraclePairs[b], id)
+			}
+		}
+		defs = append(defs, adv{pkg: rpmP.vulnBin, fixed: rpmP.fixIn, id: "ADV-oracle-unknown-platforms", plats: []string{"Oracle Linux 10", "Oracle VM 3"}})
+		if vs, err := oracleParseDoc(ctx, w, fmt.Sprintf("com.oracle.elsa-pairs-%d.xml", round), defs); err != nil {
+			fail("oracle updater (definitions with two platforms)", err)
+		} else {
+			st.add(vs...)
+		}
+	}
 	sfiles := map[string][]adv{}
 	for _, n := range []string{"12", "15"} {
 		sfiles["suse.linux.enterprise.server."+n+".xml.gz"] = advPair(rpmP, "suse-"+n, false)
@@ -403,6 +428,35 @@ func (h *harness) pipelineRound(ctx context.Context, round int) {
 			continue
 		}
 		h.checkImage("alpine", e.Release, ir, st, apkP, "ADV-alpine-"+e.Release+"-vuln")
+		// the same image with a VERSION_ID of two or four components (the
+		// release is what PRETTY_NAME says; VERSION_ID carries the patch level)
+		if e.Release != "edge" {
+			for _, vid := range []string{e.Release, e.Release + ".7.1", e.Release + ".0_rc2"} {
+				f2 := map[string][]byte{"lib/apk/db/installed": apkDB(apkP)}
+				for _, f := range e.Files {
+					if f[0] != "etc/os-release" {
+						continue
+					}
+					var ls []string
+					for _, l := range strings.Split(f[1], "\n") {
+						if strings.HasPrefix(l, "VERSION_ID=") {
+							l = "VERSION_ID=" + vid
+						}
+						ls = append(ls, l)
+					}
+					f2[f[0]] = []byte(strings.Join(ls, "\n"))
+				}
+				if _, ok := f2["etc/os-release"]; !ok {
+					continue
+				}
+				ir2, err := indexImage(ctx, f2, []indexer.DistributionScanner{distScanner("alpine")}, []indexer.PackageScanner{&apk.Scanner{}}, lin())
+				if err != nil {
+					fail("index alpine "+e.Release+" VERSION_ID="+vid, err)
+					continue
+				}
+				h.checkImage("alpine", e.Release+" VERSION_ID="+vid, ir2, st, apkP, "ADV-alpine-"+e.Release+"-vuln")
+			}
+		}
 	}
 	for _, ns := range []string{"debian", "debianDistroless"} {
 		for _, e := range h.fx.Dirs[ns] {
@@ -501,7 +555,15 @@ func (h *harness) pipelineRound(ctx context.Context, round int) {
 		}
 		mk("r1", rpmP.vulnBin, rpmP.vulnSrc, rpmP.vulnVer)
 		mk("r2", rpmP.fixedBin, rpmP.fixedSrc, rpmP.fixedVer)
-		h.checkImage(im.eco, im.rel, ir, st, rpmP, im.want)
+		want := []string{im.want}
+		if im.eco == "oracle" {
+			for _, e := range h.fx.Expected["oracle"] {
+				if e[1] == im.rel {
+					want = append(want, oraclePairs[e[0]]...)
+				}
+			}
+		}
+		h.checkImage(im.eco, im.rel, ir, st, rpmP, want...)
 	}
 
 	// python
